@@ -93,7 +93,7 @@ class BridgeHarness(Harness):
          slave (axil): (aw, w, b_up, ar, r_up/data) ; (wb): (lat, lastreq) ; (csr): (dat_r expected next,)"""
 
     def __init__(self, name, kind, words=(0, 1), strbs=None, conc=False, w_late=True, w_before_aw=False, maxlat=1, err=False,
-                 pipelined=False, cap=None, marks=(1, 2), **p):
+                 pipelined=False, cap=None, marks=(1, 2), b2b=False, **p):
         self.name, self.kind, self.p = name, kind, p
         self.mw, self.sw = p.get("mw", 32), p.get("sw", p.get("mw", 32))
         self.nl = self.mw//8
@@ -101,6 +101,7 @@ class BridgeHarness(Harness):
         self.strbs = list(strbs) if strbs is not None else list(range(1 << self.nl))
         self.conc, self.w_late, self.w_before_aw, self.maxlat, self.err, self.marks = conc, w_late, w_before_aw, maxlat, err, marks
         self.nbytes = p.get("nbytes", 8)
+        self.b2b = b2b
         self.base = p.get("base", 0)
         if cap:
             self.cap = cap
@@ -145,7 +146,7 @@ class BridgeHarness(Harness):
     def env_init(self):
         mem = tuple(self.init_byte(a) for a in range(self.nbytes))
         if self.sk == "axil":
-            sl = (None, None, 0, None, None)
+            sl = (None, None, 0, None, None, 0, 0, 0, 0)      # aw, w, b_up(1=okay,2=err), ar, r, r_err, errw seen, errr seen, -
         elif self.sk == "wb":
             sl = (0, None, 0)
         elif self.sk == "csr":
@@ -160,7 +161,7 @@ class BridgeHarness(Harness):
         if self.mk == "axil":
             if wr[0] in ("I", "T"):
                 wc = [("idle",)]
-                if (wr[0] == "I") and (self.conc or rd[0] in ("I", "T")):
+                if (wr[0] == "I" or self.b2b) and (self.conc or rd[0] in ("I", "T")):
                     for op in self.wops:
                         wc.append(("start", op, 1, 1))
                         if self.w_late:
@@ -174,7 +175,7 @@ class BridgeHarness(Harness):
                 wc = [("b", 0), ("b", 1)]
             if rd[0] in ("I", "T"):
                 rc = [("idle",)]
-                if rd[0] == "I" and (self.conc or wr[0] in ("I", "T")):
+                if (rd[0] == "I" or self.b2b) and (self.conc or wr[0] in ("I", "T")):
                     rc += [("start", w) for w in self.words]
             elif rd[0] == "A":
                 rc = [("hold",)]
@@ -196,12 +197,15 @@ class BridgeHarness(Harness):
                 if wr[0] == "I":
                     mch += [(("wbw", op), ("-",)) for op in self.wops] + [(("wbr", (w, s, 0)), ("-",)) for w in self.words for s in self.strbs if s]
         if self.sk == "axil":
-            aw, w, b_up, ar, r = sl
+            aw, w, b_up, ar, r = sl[:5]
             c_aw = [0, 1] if aw is None else [1]
             c_w = [0, 1] if w is None else [1]
             c_b = [0, 1] if (aw is not None and w is not None and not b_up) else [0]
             c_ar = [0, 1] if ar is None else [1]
             c_r = [0, 1] if (ar is not None and r is None) else [0]
+            if self.err:
+                c_b = c_b + ([2] if 1 in c_b else [])       # 2 = raise the response with SLVERR
+                c_r = c_r + ([2] if 1 in c_r else [])
             sch = list(itertools.product(c_aw, c_w, c_b, c_ar, c_r))
         elif self.sk == "wb":
             sch = [("a",)] + ([("w",)] if sl[0] < self.maxlat else []) + ([("e",)] if (self.err and not sl[2]) else [])
@@ -299,16 +303,18 @@ class BridgeHarness(Harness):
             v[M["cti"]] = v[M["bte"]] = 0
         S, sl, back = getattr(self, "S", None), env[4], env[3]
         if self.sk == "axil":
-            aw, w, b_up, ar, r = sl
+            aw, w, b_up, ar, r, r_err = sl[:6]
             sc = ch[1]
             v[S["aw"]["ready"]] = int(sc[0] and aw is None)
             v[S["w"]["ready"]] = int(sc[1] and w is None)
             bv = int((b_up or sc[2]) and aw is not None and w is not None)
-            v[S["b"]["valid"]], v[S["b"]["resp"]] = bv, (RESP_OKAY if bv else 3)
+            berr = (b_up == 2) or (not b_up and sc[2] == 2)
+            v[S["b"]["valid"]], v[S["b"]["resp"]] = bv, ((RESP_SLVERR if berr else RESP_OKAY) if bv else 3)
             v[S["ar"]["ready"]] = int(sc[3] and ar is None)
             if ar is not None and (r is not None or sc[4]):
                 data = r if r is not None else self.sread(back, ar)
-                v[S["r"]["valid"]], v[S["r"]["resp"]], v[S["r"]["data"]] = 1, RESP_OKAY, data
+                rerr = r_err if r is not None else (sc[4] == 2)
+                v[S["r"]["valid"]], v[S["r"]["resp"]], v[S["r"]["data"]] = 1, (RESP_SLVERR if rerr else RESP_OKAY), data
             else:
                 v[S["r"]["valid"]], v[S["r"]["resp"]], v[S["r"]["data"]] = 0, 3, (1 << self.sw) - 1
         elif self.sk == "wb":
@@ -356,7 +362,7 @@ class BridgeHarness(Harness):
         snap = None
         if self.sk == "axil":
             S = self.S
-            aw, w, b_up, ar, r = sl
+            aw, w, b_up, ar, r, r_err, errw, errr = sl[:8]
             snap = tuple((v[S[c]["valid"]], v[S[c]["ready"]]) + tuple(v[S[c][f]] for f in fs) for c, fs in (("aw", ("addr",)), ("w", ("data", "strb")), ("ar", ("addr",))))
             if stall is not None:
                 for k, (old, new) in enumerate(zip(stall, snap)):
@@ -378,8 +384,13 @@ class BridgeHarness(Harness):
                 # the write takes effect when the slave raises B
                 back2 = self.apply_write(back, aw, w[1], w[0], self.snl)
                 self.cov["slave_writes"] += 1
+            bstate = 0
+            if bv:
+                bstate = 2 if v[S["b"]["resp"]] != RESP_OKAY else 1
             if hs(S, "b"):
-                aw, w, bv = None, None, 0
+                if v[S["b"]["resp"]] != RESP_OKAY:
+                    errw = 1
+                aw, w, bstate = None, None, 0
             if hs(S, "ar"):
                 if v[S["ar"]["addr"]] >= self.nbytes:
                     return env, ("addr.range", f"slave-side AR address {v[S['ar']['addr']]:#x} outside the {self.nbytes}-byte window the master addresses"), 0
@@ -387,9 +398,12 @@ class BridgeHarness(Harness):
             rv = v[S["r"]["valid"]]
             if rv and r is None:
                 r = v[S["r"]["data"]]
+                r_err = int(v[S["r"]["resp"]] != RESP_OKAY)
             if hs(S, "r"):
-                ar, r = None, None
-            sl2 = (aw, w, 1 if bv else 0, ar, r)
+                if v[S["r"]["resp"]] != RESP_OKAY:
+                    errr = 1
+                ar, r, r_err = None, None, 0
+            sl2 = (aw, w, bstate, ar, r, r_err, errw, errr, 0)
             if not (sc[0] and sc[1] and sc[3]):
                 coop = False
             if (sl[0] is not None and sl[1] is not None and not sl[2] and not sc[2]) or (sl[3] is not None and sl[4] is None and not sc[4]):
@@ -457,7 +471,14 @@ class BridgeHarness(Harness):
                 if not c[1]:
                     coop = False
                 if b_hs:
-                    if self.err and self.sk == "wb":
+                    if self.err and self.sk == "axil":
+                        seen = sl2[6]
+                        if seen and v[M["b"]["resp"]] == RESP_OKAY:
+                            return env, ("resp.err_dropped", "a slave-side write of this request was answered with an error, the master receives OKAY"), 0
+                        if not seen and v[M["b"]["resp"]] != RESP_OKAY:
+                            return env, ("resp.err_invented", f"all slave-side writes of this request were answered OKAY, the master receives resp={v[M['b']['resp']]}"), 0
+                        sl2 = sl2[:6] + (0,) + sl2[7:]
+                    elif self.err and self.sk == "wb":
                         if sl[2] and v[M["b"]["resp"]] == RESP_OKAY:
                             return env, ("resp.err_dropped", "the slave terminated the write with err, the master receives OKAY"), 0
                         sl2 = sl2[:2] + (0,)
@@ -502,14 +523,22 @@ class BridgeHarness(Harness):
                 if not c[1]:
                     coop = False
                 if r_hs:
-                    if self.err and self.sk == "wb":
+                    rd_err = False
+                    if self.err and self.sk == "axil":
+                        rd_err = bool(sl2[7])
+                        if rd_err and v[M["r"]["resp"]] == RESP_OKAY:
+                            return env, ("resp.err_dropped", "a slave-side read of this request was answered with an error, the master receives OKAY"), 0
+                        if not rd_err and v[M["r"]["resp"]] != RESP_OKAY:
+                            return env, ("resp.err_invented", f"all slave-side reads of this request were answered OKAY, the master receives resp={v[M['r']['resp']]}"), 0
+                        sl2 = sl2[:7] + (0,) + sl2[8:]
+                    elif self.err and self.sk == "wb":
                         if sl[2] and v[M["r"]["resp"]] == RESP_OKAY:
                             return env, ("resp.err_dropped", "the slave terminated the read with err, the master receives OKAY"), 0
                         sl2 = sl2[:2] + (0,)
                     elif v[M["r"]["resp"]] != RESP_OKAY:
                         return env, ("resp.r_error", f"read answered with resp={v[M['r']['resp']]} by an error-free memory"), 0
                     got = v[M["r"]["data"]]
-                    for l in range(self.nl if not (self.err and sl[2]) else 0):
+                    for l in range(self.nl if not ((self.err and self.sk == "wb" and sl[2]) or rd_err) else 0):
                         gb = (got >> (8*l)) & 0xFF
                         if gb not in allowed[l]:
                             return env, ("read.value", f"read word {word}: lane {l} returns {gb:#x}, allowed {[hex(x) for x in allowed[l]]}"), 0
@@ -614,11 +643,14 @@ S32 = (0b0000, 0b0001, 0b1000, 0b0110, 0b1111, 0b1100)
 reg("AXILiteSRAM(16bit)", "quick", kind="axil_sram", mw=16, nbytes=4, strbs=S16)
 reg("AXILiteSRAM(16bit)+concurrent", "quick", kind="axil_sram", mw=16, nbytes=4, strbs=(0b01, 0b11), conc=True, marks=(1,))
 reg("AXILiteSRAM(32bit)", "quick", kind="axil_sram", mw=32, nbytes=8, strbs=S32, marks=(1,))
+reg("AXILiteSRAM(16bit),back_to_back", "quick", kind="axil_sram", mw=16, nbytes=4, strbs=(0b01, 0b11), marks=(1,), b2b=True)
 reg("AXILiteSRAM(16bit,read_only)", "quick", kind="axil_sram", mw=16, nbytes=4, strbs=(0b11,), read_only=True)
 reg("AXILiteDownConverter(32->16)", "quick", kind="axil_down", mw=32, sw=16, nbytes=8, strbs=(0b0000, 0b0001, 0b1100, 0b1111), marks=(1,), w_late=False)
 reg("AXILiteDownConverter(32->16),all", "thorough", kind="axil_down", mw=32, sw=16, nbytes=8, strbs=S32, marks=(1,))
 reg("AXILiteDownConverter(32->8)", "quick", kind="axil_down", mw=32, sw=8, nbytes=8, strbs=(0b0000, 0b0001, 0b1000, 0b1111), marks=(1,), w_late=False)
 reg("AXILiteDownConverter(32->16)+concurrent", "thorough", kind="axil_down", mw=32, sw=16, nbytes=8, strbs=(0b0011, 0b1100, 0b1111), marks=(1,), conc=True)
+reg("AXILiteDownConverter(32->16),err_responses", "quick", kind="axil_down", mw=32, sw=16, nbytes=8, strbs=(0b0011, 0b1111), marks=(1,), w_late=False, err=True, words=(0,), b2b=True)
+reg("AXILiteUpConverter(16->32),err_responses", "thorough", kind="axil_up", mw=16, sw=32, nbytes=8, strbs=(0b11,), marks=(1,), w_late=False, err=True, words=(0, 1), b2b=True)
 reg("AXILiteUpConverter(16->32)", "quick", kind="axil_up", mw=16, sw=32, nbytes=8, strbs=S16, words=(0, 1, 2), marks=(1,))
 reg("AXILiteUpConverter(8->32)", "thorough", kind="axil_up", mw=8, sw=32, nbytes=8, strbs=(0, 1), words=(0, 1, 3, 4), marks=(1, 2))
 reg("AXILiteConverter(32->32)", "quick", kind="axil_conv", mw=32, sw=32, nbytes=8, strbs=(0b0001, 0b1111), marks=(1,))
